@@ -273,7 +273,9 @@ def diff_dicts(a, b, path="", config=None):
                 raise RuntimeError(
                     "Found predicate(s) for path {} pointing to dict entry.".format(
                         path or '/'))
-            if not compare_strict(avalue, bvalue):
+            # (deep comparison: the values can be containers of different
+            # Python types, e.g. a dict and a NotebookNode)
+            if not strict_equal(avalue, bvalue):
                 di.replace(key, bvalue)
 
     for key in sorted(bkeys - akeys):
